@@ -137,3 +137,15 @@ package domain
 //@   ensures res != nil && fresh(res) && res.Path == path && len(res.SupportedBy) == 0 && res.RoutingDecision == nil && res.ModelCapabilities == nil && res.ModelName == ""
 
 //@ interface InferenceProfile.GetConfig
+
+// ---- C10: filter configuration predicates
+//@ func (fc *FilterConfig) IsEmpty
+//@   property C10
+//@   requires fc != nil
+//@   ensures res <==> (len(fc.Include) == 0 && len(fc.Exclude) == 0)
+
+//@ func (fc *FilterConfig) HasIncludeAll
+//@   property C10
+//@   requires fc != nil && len(fc.Include) < 1000000
+//@   loop 1 invariant forall j int :: 0 <= j && j < i$1 ==> fc.Include[j] != "*"
+//@   ensures res <==> (len(fc.Include) == 0 || (exists i int :: 0 <= i && i < len(fc.Include) && fc.Include[i] == "*"))
